@@ -138,6 +138,10 @@ theorem readQueue_succ (inj : BSt → Nat → BSt) (tsNow : Option Nat) (i fuel 
         then readQueue inj tsNow i fuel (total + st.size) (inj (rqMove s i st rest) 3)
         else rqCommit (inj (rqMove s i st rest) 3) i := rfl
 
+/-- the fuel exit (model only) ends like every other exit -/
+theorem readQueue_zero (inj : BSt → Nat → BSt) (tsNow : Option Nat) (i total : Nat) (s : BSt) :
+    readQueue inj tsNow i 0 total s = rqFin s i total := rfl
+
 theorem same_rqCommit (s : BSt) (i : Nat) : Same s (rqCommit s i) :=
   Same.setTh s i _ (ThEq.ofQ' _ _ (qCommitRead_fields _ _))
 
@@ -186,7 +190,7 @@ theorem PI.readQueue (hi : InjOK inj) (tsNow : Option Nat)
     (htn : c.grace ≠ 0 → c.refreshAfterSample = true → tsNow = some fl) (i : Nat) (hc : i ∈ C) (fuel : Nat) :
     ∀ (T : Nat → Prop) (total : Nat) (s : BSt), PI c none fl T C s → PI c none fl T C (Backend.readQueue inj tsNow i fuel total s) := by
   induction fuel with
-  | zero => intro T total s h; exact h
+  | zero => intro T total s h; rw [readQueue_zero]; exact h.same (same_rqFin s i total)
   | succ n ih =>
     intro T total s h
     rw [readQueue_succ]
